@@ -275,6 +275,7 @@ def main():
     discrepancies = []
     allow_partial = set(tcfg.get("partial_ok", []))
     not_encoded = []
+    partial = []
     seen = {}
     for u in units:
         name = u["unit"]
@@ -286,8 +287,11 @@ def main():
                 inconclusive.append("%s: not encodable: %s" % (name, u["unsupported"][:200]))
         if u.get("unknown"):
             inconclusive.append("%s: %d solver unknowns" % (name, u["unknown"]))
-        if u.get("truncated") and name not in allow_partial and "unwinding" not in u["truncated"]:
-            inconclusive.append("%s: exploration truncated: %s" % (name, u["truncated"]))
+        if u.get("truncated"):
+            partial.append({"unit": name, "why": u["truncated"], "paths": u["paths"]})
+            capped = u["truncated"].startswith("path cap") or u["truncated"].startswith("unwinding") or u["truncated"].startswith("step budget") or u["truncated"].startswith("call depth")
+            if not (capped and (tcfg.get("partial_ok_all") or name in allow_partial)):
+                inconclusive.append("%s: exploration truncated: %s" % (name, u["truncated"]))
         for lbl in tcfg.get("must_reach", {}).get(name, cfg.get("must_reach_all", [])):
             if not u.get("unsupported") and u["reached"].get(lbl, 0) == 0 and not u.get("violations"):
                 inconclusive.append("%s: vacuous: label %r never reached" % (name, lbl))
@@ -315,6 +319,9 @@ def main():
                 new_violations.append((key, v))
     for key, st in seen.items():
         if not st["confirmed"]:
+            if "|unwind|" in key and tcfg.get("partial_ok_all"):
+                partial.append({"unit": key.split("|")[0], "why": "unwinding bound reached (native run terminates): " + st["fails"][0][:200]})
+                continue
             discrepancies.append(st["fails"][0])
     for key, v in sorted(known_hits.items()):
         print("KNOWN-FINDING: property=%s %s" % (pid, known_keys[key].get("what", key)))
@@ -326,7 +333,7 @@ def main():
         print("ENGINE-DISCREPANCY property=%s %s" % (pid, d))
         inconclusive.append("engine discrepancy: " + d)
     wall = time.time() - t0
-    write_evidence(pid, tier, seed, cfg, tcfg, res, new_violations, sorted(known_hits), not_encoded, wall, inconclusive, replays)
+    write_evidence(pid, tier, seed, cfg, tcfg, res, new_violations, sorted(known_hits), not_encoded, wall, inconclusive, replays, partial)
     tot_paths = sum(u["paths"] for u in units)
     tot_q = sum(u["queries"] for u in units)
     print("property=%s tier=%s units=%d paths=%d queries=%d solver_s=%.1f wall_s=%.1f not_encoded=%d" % (
@@ -340,7 +347,7 @@ def main():
     sys.exit(0)
 
 
-def write_evidence(pid, tier, seed, cfg, tcfg, res, new_violations, known_hits, not_encoded, wall, inconclusive, replays=0):
+def write_evidence(pid, tier, seed, cfg, tcfg, res, new_violations, known_hits, not_encoded, wall, inconclusive, replays=0, partial=()):
     os.makedirs(os.path.join(VERIF, "evidence"), exist_ok=True)
     units = res["units"] if res else []
     funcs = sorted({f for u in units for f in (u.get("functions_encoded") or [])})
@@ -367,6 +374,7 @@ def write_evidence(pid, tier, seed, cfg, tcfg, res, new_violations, known_hits, 
             "functions_encoded": funcs,
             "units": per_unit,
             "units_not_encoded": not_encoded,
+            "units_partially_explored_not_claimed_beyond_cap": list(partial),
             "bounds": tcfg.get("bounds", cfg.get("bounds", "")),
             "outside_the_claim": cfg.get("outside", ""),
             "queries": sum(u["queries"] for u in units),
